@@ -24,6 +24,116 @@ func c17(p *core.Prog, r *core.Report) {
 	c17Table(p, r)
 	c17Loop(p, r)
 	c17State(p, r)
+	r.Rule("C17-R5", "E6 provenance", 5, "the caller's retry options reach the attempt loop unchanged")
+	c17Options(p, r)
+}
+
+// c17Options: the policy and budget the caller set are the ones RunWithRetry
+// applies: SetRetryOptions stores its argument; SetTimeoutPerAttempt writes
+// only the TimeoutPerAttempt field and creates an options object only when
+// there is none (replacing an existing object would drop RetryOn /
+// MaxAttempts); Build hands the builder's options to the context; the
+// accessor returns the context's object, touching only a zero MaxAttempts.
+func c17Options(p *core.Prog, r *core.Report) {
+	cbF := p.Field("", "ContextBuilder", "RetryOptions")
+	if cbF == nil {
+		r.Errorf("ContextBuilder.RetryOptions does not resolve")
+		return
+	}
+	if f := mustFunc(p, r, "", "ContextBuilder", "SetRetryOptions"); f != nil {
+		ok := false
+		core.EachInstr(f, func(i ssa.Instruction) {
+			if st, isSt := i.(*ssa.Store); isSt && core.AddrField(st.Addr) == cbF && st.Val == ssa.Value(f.Params[1]) {
+				ok = true
+			}
+		})
+		r.Check(ok, "C17-R5", fname(f), "stores the caller's options object", p.Pos(f.Pos()), "cb.RetryOptions = retryOptions", "the options given by the caller are not the ones kept")
+	}
+	if f := mustFunc(p, r, "", "ContextBuilder", "SetTimeoutPerAttempt"); f != nil {
+		okRepl, okFld := true, false
+		how := ""
+		core.EachInstr(f, func(i ssa.Instruction) {
+			st, isSt := i.(*ssa.Store)
+			if !isSt {
+				return
+			}
+			if core.AddrField(st.Addr) == cbF {
+				// replacing the object: only when there was none
+				if !factsAt(st.Block()).nilCmp(func(v ssa.Value) bool { return core.LoadedField(v) == cbF }, true) {
+					okRepl = false
+					how = "the options object is replaced although one exists: the retry policy (RetryOn) and budget set earlier are lost"
+				}
+				return
+			}
+			if fl := core.AddrField(st.Addr); fl != nil && fl.Name() == "TimeoutPerAttempt" {
+				if fa := st.Addr.(*ssa.FieldAddr); core.LoadedField(fa.X) == cbF && st.Val == ssa.Value(f.Params[1]) {
+					okFld = true
+				}
+				return
+			}
+			if fl := core.AddrField(st.Addr); fl != nil && (fl.Name() == "RetryOn" || fl.Name() == "MaxAttempts") {
+				okRepl = false
+				how = "SetTimeoutPerAttempt writes " + fl.Name()
+			}
+		})
+		if how == "" && !okFld {
+			how = "TimeoutPerAttempt of the builder's options object is not set from the argument"
+		}
+		r.Check(okRepl && okFld, "C17-R5", fname(f), "sets only TimeoutPerAttempt; creates the options only when nil", p.Pos(f.Pos()), "store to cb.RetryOptions guarded by == nil; field store from the parameter", how)
+	}
+	if f := mustFunc(p, r, "", "ContextBuilder", "Build"); f != nil {
+		ok := false
+		core.EachInstr(f, func(i ssa.Instruction) {
+			if st, isSt := i.(*ssa.Store); isSt {
+				if fl := core.AddrField(st.Addr); fl != nil && fl.Name() == "retryOptions" && core.LoadedField(st.Val) == cbF {
+					ok = true
+				}
+			}
+		})
+		r.Check(ok, "C17-R5", fname(f), "params.retryOptions = cb.RetryOptions", p.Pos(f.Pos()), "the builder's object is put in the context", "the context does not carry the builder's retry options")
+	}
+	if f := mustFunc(p, r, "", "", "getRetryOptions"); f != nil {
+		ok, n := true, 0
+		how := ""
+		core.EachInstr(f, func(i ssa.Instruction) {
+			switch x := i.(type) {
+			case *ssa.Return:
+				n++
+				v := x.Results[0]
+				fl := core.LoadedField(v)
+				g, isG := loadOfGlobal(v)
+				if !(fl != nil && fl.Name() == "retryOptions") && !(isG && g == "defaultRetryOptions") {
+					ok, how = false, "returns something other than the context's options or the default"
+				}
+			case *ssa.Store:
+				if fl := core.AddrField(x.Addr); fl != nil && fl.Name() != "MaxAttempts" {
+					ok, how = false, "the accessor modifies "+fl.Name()
+				}
+			}
+		})
+		r.Check(ok && n > 0, "C17-R5", fname(f), "returns the context's options (default when absent), fixing only a zero MaxAttempts", p.Pos(f.Pos()), "returns params.retryOptions / defaultRetryOptions", how)
+	}
+	if f := mustFunc(p, r, "", "Channel", "RunWithRetry"); f != nil {
+		ok := false
+		for _, c := range core.CallsIn(f, "RetryOn.CanRetry") {
+			recv := core.CallArgs(c)[0]
+			if fl := core.LoadedField(recv); fl != nil && fl.Name() == "RetryOn" {
+				if fa, isFA := recv.(*ssa.UnOp).X.(*ssa.FieldAddr); isFA && callResult(fa.X, "getRetryOptions") != nil {
+					ok = true
+				}
+			}
+		}
+		r.Check(ok, "C17-R5", fname(f), "policy applied = getRetryOptions(ctx).RetryOn", p.Pos(f.Pos()), "CanRetry receiver is the RetryOn of the context's options", "the attempt loop applies a policy that is not the one in the context's options")
+	}
+}
+
+func loadOfGlobal(v ssa.Value) (string, bool) {
+	if u, ok := v.(*ssa.UnOp); ok && u.Op == token.MUL {
+		if g, isG := u.X.(*ssa.Global); isG {
+			return g.Name(), true
+		}
+	}
+	return "", false
 }
 
 func c17Table(p *core.Prog, r *core.Report) {
